@@ -222,6 +222,7 @@ func TestC12Flat(t *testing.T) {
 		doc := xgen.Doc(rt, o)
 		ctx := xgen.Context(rt, doc, 4)
 		g := xgen.NewG(rt, doc)
+		g.ExtraFuncs = true
 		if prefixed {
 			g.ElNames = o.ElNames
 			g.Prefixes = []string{"", "p", "q"}
@@ -288,6 +289,7 @@ func TestC12Protocol(t *testing.T) {
 		doc := xgen.Doc(rt, xgen.DefaultDoc())
 		ctx := xgen.Context(rt, doc, 4)
 		g := xgen.NewG(rt, doc)
+		g.ExtraFuncs = true
 		e := anyNodeSetExpr(g, rt, ctx)
 		extra := rapid.IntRange(1, 5).Draw(rt, "extra")
 		l := &harness.Live{Property: "C12", Check: "C12/protocol", Doc: doc, Ctx: ctx, AST: e, Expr: xast.Render(e), Flavour: flavourOf(rt),
